@@ -12,8 +12,9 @@ from xdsl.pattern_rewriter import (
 from xdsl.rewriter import InsertPoint
 
 from snaxc.dialects import accfg
-from snaxc.inference.helpers import iter_ops_range, previous_ops_of
+from snaxc.inference.helpers import iter_ops_range, previous_ops_of, val_is_defined_in_block
 from snaxc.inference.scoped_setups import get_scoped_setup_inputs
+from snaxc.inference.trace_acc_state import infer_state_of
 
 
 class BlockLevelSetupAwaitOverlapPattern(RewritePattern):
@@ -167,6 +168,9 @@ class LoopLevelSetupAwaitOverlapPattern(RewritePattern):
         if inputs is None:
             return
 
+        # remember what is known about the state at the end of the loop body, code after the loop may depend on it
+        state_at_end_of_body = infer_state_of(yield_op.operands[iter_arg_idx])
+
         # 2. We insert a copy of the setup op before the loop, replacing dependencies with the loop inputs (%lb)
         setup_before = inputs.copy_with_new_dependent_vals((for_op.lb, *for_op.iter_args))
         setup_before.insert_at_position(
@@ -190,7 +194,27 @@ class LoopLevelSetupAwaitOverlapPattern(RewritePattern):
         # make sure the yield returns the new state:
         yield_op.operands[iter_arg_idx] = setup_at_end.setup.out_state
 
-        # 4. We erase the original setup op.
+        # 4. The copy of the setup at the end of the *last* iteration is not used by any launch, but it overwrites
+        #    fields that code after the loop may expect to still hold the value from the end of the loop body.
+        #    Restore these fields after the loop (only values defined outside of the loop can be relied upon there).
+        fields_to_restore = {
+            name: state_at_end_of_body[name]
+            for name, val in setup_at_end.setup.iter_params()
+            if name in state_at_end_of_body
+            and state_at_end_of_body[name] != val
+            and not val_is_defined_in_block(state_at_end_of_body[name], for_op.body.block)
+        }
+        state_after_loop = for_op.results[iter_arg_idx]
+        if fields_to_restore and state_after_loop.uses.get_length() > 0:
+            uses_after_loop = tuple(state_after_loop.uses)
+            restore_setup = accfg.SetupOp(
+                fields_to_restore.values(), fields_to_restore.keys(), op.accelerator, state_after_loop
+            )
+            rewriter.insert_op(restore_setup, InsertPoint.after(for_op))
+            for use in uses_after_loop:
+                use.operation.operands[use.index] = restore_setup.out_state
+
+        # 5. We erase the original setup op.
         inputs.erase(op.in_state, rewriter)
 
 
